@@ -250,12 +250,31 @@ def prepare_coq_tree() -> None:
     import fcntl
 
     COQ.parent.mkdir(parents=True, exist_ok=True)
+    # several checks of the SAME scratch worktree may run at the same time and share the private tree: it is synchronised once per state
+    # of the main tree (stamp = newest source file), under its own lock -- a second rsync would replace compiled files another check is
+    # reading
+    stamp = str(max(p.stat().st_mtime_ns for p in MAIN_COQ.rglob("*.v") if "Gen" not in p.parts))
+    with open(str(COQ) + ".synclock", "w") as lf:
+        fcntl.flock(lf, fcntl.LOCK_EX)
+        try:
+            sf = COQ / ".synced"
+            if sf.exists() and sf.read_text() == stamp:
+                return
+            _sync_private_tree()
+            sf.write_text(stamp)
+        finally:
+            fcntl.flock(lf, fcntl.LOCK_UN)
+
+
+def _sync_private_tree() -> None:
+    import fcntl
+
     with open(MAIN_COQ / ".lock", "w") as f:
         fcntl.flock(f, fcntl.LOCK_EX)          # not while the main tree is being built
         try:
             # everything, Gen and compiled files included: the translator then rewrites Gen/*.v only where the source under test gives
             # another text, which makes exactly those files (and, through make, what depends on them) newer than their compiled form
-            subprocess.run(["rsync", "-a", "--delete", "--exclude", ".lock", f"{MAIN_COQ}/", f"{COQ}/"], check=True)
+            subprocess.run(["rsync", "-a", "--delete", "--exclude", ".lock", "--exclude", ".synced", f"{MAIN_COQ}/", f"{COQ}/"], check=True)
         finally:
             fcntl.flock(f, fcntl.LOCK_UN)
 
